@@ -296,6 +296,7 @@ def gen_case(rng, tier, i):
     case["cq"] = [int(rng.random() < 0.4), [[int(rng.random() < pq) for _ in range(nv)] for _ in range(len(rows) + 1)]]
     case["cx"] = rand_csv_texts(rng)                               # arbitrary short texts for the CSV reader
     case["xx"] = rand_xml_tokens(rng, case_strings(case))          # foreign / malformed XML character data and attribute values
+    case["jd"] = [rng.randrange(6), rng.randint(0, 1), rng.choice([0, 0, 1, 1, 7, 7, 2, 3, 4, 5, 6])]   # foreign JSON document layout / damage
     if rng.random() < 0.6:                                          # destination kind of Result.serialize, every kind with real weight
         case["dest"] = rng.choice(DEST_KINDS[1:])
     return case
@@ -368,7 +369,7 @@ def enc_case_result(case):
     return enc_table(case["vars"], case["rows"])
 
 
-ERRMAP = {"ParseException": "ParseError", "ParseError": "ParseError", "ExpatError": "ParseError",
+ERRMAP = {"JSONDecodeError": "ValueError", "ParseException": "ParseError", "ParseError": "ParseError", "ExpatError": "ParseError",
           "KeyError": "KeyError", "TypeError": "TypeError", "ValueError": "ValueError",
           "NotImplementedError": "NotImplementedError", "ResultException": "ResultException",
           "IndexError": "IndexError", "AttributeError": "AttributeError"}
@@ -887,6 +888,39 @@ def rand_xml_tokens(rng, strings):
     return out
 
 
+def json_foreign_doc(obj, jd):
+    """the tree of rdflib's document in another legal layout (indentation, separators, `ensure_ascii`, white space around),
+    then possibly damaged: `jd` = [layout, ascii, damage]"""
+    layout, asc, damage = jd
+    kw = [{}, {"separators": (",", ":")}, {"indent": 2}, {"indent": "\t"}, {"separators": (" ,\n", " :\r\n ")}, {"indent": 0}][layout]
+    t = json.dumps(obj, ensure_ascii=bool(asc), **kw)
+    if damage == 1:
+        t = " \n\t" + t + "\r\n "
+    elif damage == 2:
+        k = t.rfind("}")
+        t = t[:k] + "," + t[k:]                       # trailing comma
+    elif damage == 3:
+        t = t + " x"                                  # extra data
+    elif damage == 4:
+        t = t[:-1]                                    # truncated
+    elif damage == 5:
+        t = t.replace(":", " ", 1)                    # a colon missing
+    elif damage == 6:
+        t = t.replace("true", "True").replace('"head"', "'head'", 1)
+    elif damage == 7:
+        t = t.replace("{", "{ ", 1).replace("]", " ]").replace(",", " , ")   # (also inside strings: still a legal document)
+    return t
+
+
+def py_json_parse(text):
+    try:
+        return "ok " + " ".join(json_tokens(json.loads(text)))
+    except ValueError:
+        return "err:ValueError"
+    except Exception as e:  # noqa: BLE001
+        return err_name(e)
+
+
 def text_level(case, st=None, want_obs=True, viol=None):
     """(driver lines, observations of the implementation) for the text level.  Computed by one function for both sides:
     the driver lines quote rdflib's own document (as `json-of` does), the observations are what Python's reader /
@@ -951,6 +985,26 @@ def text_level(case, st=None, want_obs=True, viol=None):
         lines.append(" ".join(["jstr-spell"] + [enc_str(x) + "/" + (".".join(map(str, ks)) if ks else "-" if ks is not None else "9")
                                                 for x, ks in zip(loaded, chs)]))
         ob(lambda: " ".join(["="] + [enc_str(t) for t in toks]))
+        # ---- the JSON document (round h): rdflib's text read by Lean `jsonParse` + `ofJson`; the Lean writer's text read by rdflib;
+        #      Lean `jsonWrite` == `json.dumps` on the tree; the same tree in a foreign layout, possibly damaged
+        own = parse_canon(doc.encode("utf-8"), "json", "bytes") if want_obs else ""
+        obj = json.loads(doc)
+        lines.append("jdoc-of " + enc_str(doc))
+        obs.append(own)
+        lines.append("jdoc-write " + enc_case_result(case))          # completed in select_model_obs
+        obs.append(own)
+        lines.append("jdoc-dumps " + " ".join(json_tokens(obj)))
+        ob(lambda: "= " + enc_str(json.dumps(obj, ensure_ascii=False)))
+        if "jd" in case:
+            ft = json_foreign_doc(obj, case["jd"])
+            lines.append("jdoc-parse " + enc_str(ft))
+            ob(lambda: py_json_parse(ft))
+            lines.append("jdoc-of " + enc_str(ft))
+            ob(lambda: parse_canon(ft.encode("utf-8"), "json", "bytes"))
+            if want_obs:
+                st["jdoc_foreign"] = 1
+                st["jdoc_foreign_damaged"] = int(case["jd"][2] in (2, 3, 4, 5, 6))
+                st["jdoc_foreign_rejected"] = int(py_json_parse(ft).startswith("err"))
         if want_obs:
             st["jtext_tokens"] = len(toks)
             st["jtext_doc_minimal_spelling"] = int(all(ks is not None and not any(ks) for ks in chs))
@@ -1489,7 +1543,9 @@ def select_model_obs(case, out):
             csv.writer(buf).writerows(table_untokens(out[8]))
             out[8] = parse_canon(buf.getvalue().encode("utf-8"), "csv", src)
         for i, l in enumerate(out):
-            if l.startswith("CTEXT "):     # the Lean CSV writer's document, read by rdflib
+            if l.startswith("JDOC "):      # the Lean JSON writer's document, read by rdflib
+                out[i] = parse_canon(dec_str(l[5:]).encode("utf-8"), "json", "bytes")
+            elif l.startswith("CTEXT "):     # the Lean CSV writer's document, read by rdflib
                 out[i] = parse_canon(dec_str(l[6:]).encode("utf-8"), "csv", "bytes")
             elif l.startswith("XATTR") and i + 1 < len(out) and out[i + 1].startswith("XTEXT"):
                 # a document assembled from the Lean XML writer's spellings, read by rdflib
